@@ -101,6 +101,8 @@ def kinds():
                                       [(3, *POS), (14, *POS), (23, *POS), (4 + 9 * i, *POS)], [f"e{i}"], None)
     for pj in range(6):
         K[f"path-rand{pj}"] = (lambda pj: lambda i, k0: rand_path(pj, i, k0))(pj)
+    K["use-clip"] = lambda i, k0: (f'<defs><clipPath id="uc{i}"><rect xy="[[{k0}]] 0" wh="[[{k0 + 1}]] 30"/></clipPath><rect id="ut{i}" xy="0 2" wh="20 4"/></defs>'
+                                   f'<use id="e{i}" href="#ut{i}" x="[[{k0 + 2}]]" y="[[{k0 + 3}]]" clip-path="url(#uc{i})"/>', [(10, *POS), (10, *SZ), (8, *POS), (-3, *POS)], [f"e{i}"], None)
     K["use"] = lambda i, k0: (f'<rect id="t{i}" xy="[[{k0}]] 2" wh="[[{k0 + 1}]] 4"/><use id="e{i}" href="#t{i}" x="[[{k0 + 2}]]" y="[[{k0 + 3}]]"/>',
                               [(1, *POS), (3, *SZ), (40, *POS), (-30, *POS)], [f"t{i}", f"e{i}"], None)
     K["use-x"] = lambda i, k0: (f'<rect id="t{i}" xy="[[{k0}]] 2" wh="[[{k0 + 1}]] 4"/><use id="e{i}" href="#t{i}" x="[[{k0 + 2}]]"/>',
@@ -120,10 +122,10 @@ def kinds():
     return K
 
 
-MAIN = ["rect", "circle", "ellipse", "line", "polyline", "polygon", "path", "text", "box", "gtrans", "gscale", "gscale2", "gnest", "gnest2", "gtrans1", "gneg", "gs-1-3", "gs-3-1", "gs-1-1", "gs-2-2", "gs-h", "gs-n1", "gs-1-n2", "gs-n2-1", "gs-t-1-3", "path-zrel", "path-zrel2", "path-multi", "use", "use-x", "use-y", "use-0", "usesym", "clip", "clip-g", "clip-after", "clip-g-after", "shapetext", "loop-count", "loop-until", "loop-until1", "loop-while", "for", "if-true", "g-loop", "path-arc", "path-curves",
+MAIN = ["rect", "circle", "ellipse", "line", "polyline", "polygon", "path", "text", "box", "gtrans", "gscale", "gscale2", "gnest", "gnest2", "gtrans1", "gneg", "gs-1-3", "gs-3-1", "gs-1-1", "gs-2-2", "gs-h", "gs-n1", "gs-1-n2", "gs-n2-1", "gs-t-1-3", "path-zrel", "path-zrel2", "path-multi", "use", "use-clip", "use-x", "use-y", "use-0", "usesym", "clip", "clip-g", "clip-after", "clip-g-after", "shapetext", "loop-count", "loop-until", "loop-until1", "loop-while", "for", "if-true", "g-loop", "path-arc", "path-curves",
         "path-rand0", "path-rand1", "path-rand2", "path-rand3", "path-rand4", "path-rand5"]
 NOTHING = ["point", "defs", "specs", "symbol", "if-false"]
-ROOTS = ["", 'width="200"', 'height="10cm"', 'viewBox="0 0 100 50"', 'width="200" height="10cm"', 'width="30mm" viewBox="1 2 3 4"', 'height="77" viewBox="1 2 3 4"', 'width="1in" height="2in" viewBox="0 0 1 1"']
+ROOTS = ["", 'width="20em"', 'height="3ex"', 'width="200"', 'height="10cm"', 'viewBox="0 0 100 50"', 'width="200" height="10cm"', 'width="30mm" viewBox="1 2 3 4"', 'height="77" viewBox="1 2 3 4"', 'width="1in" height="2in" viewBox="0 0 1 1"']
 
 
 def templates(tier, seed):
